@@ -39,6 +39,17 @@ def parse_sub(m, with_rows=True):
     return d
 
 
+def epochs_of(case):
+    """time stamps of the input time series message (n + 1 stamps for n samples); case["repeat_stamp"] = k: stamp k + 1
+    repeats stamp k (a report logged twice: an interval of zero length)"""
+    n = case["inp"]["n"]
+    ep = [1000.0 + 7.5 * k for k in range(n + 1)]
+    k = case.get("repeat_stamp")
+    if k is not None and k + 1 <= n:
+        ep[k + 1] = ep[k]
+    return ep
+
+
 class P(Prop):
     ID = "C14"
     THEOREMS = ["C14_totals_carried", "C14_fuel_co2_nox", "C14_series_time_base"]
@@ -133,6 +144,7 @@ class P(Prop):
                 dt0 = rng.choice([c["inp"]["dt"][0], Fraction(1, 10), Fraction(1, 5), Fraction(3, 10), Fraction(7, 10), Fraction(6, 5)])
                 c["inp"]["dt"] = [dt0] * c["inp"]["n"]
             c["with_ts_message"] = rng.random() < 0.3
+            c["repeat_stamp"] = rng.randrange(c["inp"]["n"]) if (c["with_ts_message"] and rng.random() < 0.5) else None
             c["inp"]["int_dt"] = rng.random() < 0.3          # whole-second intervals as an integer array
             c["reuse_converter"] = rng.random() < 0.3        # one converter object, re-targeted through its setters, exports twice
             c["fuel_spec"] = rng.choice(["IMO", "IMO", "FUEL_EU_MARITIME"])
@@ -191,8 +203,8 @@ class P(Prop):
                     result = FEEMSResultForMachinerySystem(electric_system=eres, mechanical_system=mres)
                 tsm = None
                 if case["with_ts_message"]:
-                    tsm = gp.TimeSeriesResult(propulsion_power_timeseries=[gp.PropulsionPowerInstance(epoch_s=1000.0 + 7.5 * k, propulsion_power_kw=1.0)
-                                                                           for k in range(n + 1)])
+                    tsm = gp.TimeSeriesResult(propulsion_power_timeseries=[gp.PropulsionPowerInstance(epoch_s=e_, propulsion_power_kw=1.0)
+                                                                           for e_ in epochs_of(case)])
                 conv = FEEMSResultConverter(feems_result=result, system_feems=system, time_series_input=tsm, fuel_specified_by=spec)
                 try:
                     if case.get("reuse_converter"):
@@ -237,7 +249,7 @@ class P(Prop):
             parts.append(f"check_export {pf} {names} {r} {scale} {sc} {fuel} {core.coq_fl_list(p['co2'])} {core.coq_fl(p['nox'])} {len(p['rows'])}%nat")
         if case["series"]:
             n = case["inp"]["n"]
-            ep = "None" if not case["with_ts_message"] else "(Some " + core.coq_q_list([Fraction(1000.0 + 7.5 * k) for k in range(n + 1)]) + ")"
+            ep = "None" if not case["with_ts_message"] else "(Some " + core.coq_q_list([Fraction(e_) for e_ in epochs_of(case)]) + ")"
             dt = f"(DtScalar {core.coq_q(case['inp']['dt'][0])})" if case["scalar_dt"] else f"(DtSeries {core.coq_q_list(case['inp']['dt'])})"
             for p in obs["parsed"]:
                 for row in p["rows"]:
@@ -286,6 +298,12 @@ class P(Prop):
                     for kind, fs in row["fuel_series"]:
                         if len(fs) != n:
                             return f"detail record {row['name']}@{row['node']}: fuel-rate series of length {len(fs)} for {n} input points"
+                    if not case["scalar_dt"] and row["fuel_series"] and all(len(fs) == n for _, fs in row["fuel_series"]):
+                        # per-interval sums: the fuel-rate series of a record integrate to the fuel mass of the same record
+                        tot = sum(r_ * float(d_) for _, fs in row["fuel_series"] for r_, d_ in zip(fs, case["inp"]["dt"]))
+                        if abs(tot - row["fuel_total"]) > 1e-9 * max(1.0, abs(row["fuel_total"])):
+                            return (f"detail record {row['name']}@{row['node']}: its fuel-rate series integrate to {tot} kg over the "
+                                    f"intervals, the record itself says {row['fuel_total']} kg")
                 if not case["series"] and (row["time"] or row["power"]):
                     return "series present although not requested"
         return None
@@ -302,7 +320,7 @@ class P(Prop):
     def tags(self, case, obs):
         t = ["plant=" + ("hybrid" if case.get("hybrid") else "mechanical+electric" if case["mech"] else "electric"), "series" if case["series"] else "no-series",
              "time-base=" + ("input-message" if case["with_ts_message"] else "scalar-interval" if case["scalar_dt"] else "interval-array"),
-             "spec=" + case["fuel_spec"]]
+             "spec=" + case["fuel_spec"]] + (["input-time-series-with-a-repeated-stamp"] if case.get("repeat_stamp") is not None else [])
         if case.get("same_name"):
             t.append("two-components-with-the-same-name")
         if case.get("reuse_converter"):
